@@ -20,7 +20,7 @@ class Flow:
         self.defs = fn.defs()
 
     # ---- backward derivation ------------------------------------------------------------------
-    def roots(self, start, stop_named=True, through_calls=True, limit=4000):
+    def roots(self, start, stop_named=True, through_calls=True, limit=4000, stop_calls=None, sites=False):
         """set of roots a local/operand derives from.
         roots: ('arg', n, proj) ('var', local, name, proj) ('const', repr) ('call', name) ('static', ..)
         proj = tuple of non-deref projections accumulated on the way (outermost last)."""
@@ -102,7 +102,12 @@ class Flow:
                         out.add(("other", k))
                 else:
                     c = payload
-                    out.add(("call", c.name))
+                    if sites:
+                        out.add(("call", c.name, c.block))
+                    else:
+                        out.add(("call", c.name))
+                    if stop_calls is not None and c.is_(stop_calls):
+                        continue
                     if through_calls:
                         for a in c.args:
                             push_op(a, proj)
@@ -199,3 +204,52 @@ def const_args(call):
             elif "bytes" in a:
                 out.append(bytes.fromhex(a["bytes"]))
     return out
+
+
+def comparisons(fn, skip_debug=True):
+    """all ordering comparisons of fn: dict(block, idx, op, a, b, res, macros)"""
+    out = []
+    for bi, si, pl, rv, ln, mc in fn.assigns():
+        if rv[0] == "bin" and rv[1] in ("Lt", "Le", "Gt", "Ge", "Eq", "Ne"):
+            if skip_debug and any(m.startswith("debug_assert") for m in mc):
+                continue
+            out.append({"block": bi, "idx": si, "op": rv[1], "a": rv[2], "b": rv[3], "res": pl[0], "line": ln, "macros": mc})
+    return out
+
+
+def bool_switch_edges(fn, block, local):
+    """(true_edges, false_edges) of the switch terminating `block` when it switches on `local`"""
+    t = fn.term(block)
+    if t[0] != "switch" or "p" not in t[1] or t[1]["p"] != [local]:
+        return None
+    te, fe = set(), set()
+    zero_targets = [tgt for v, tgt in t[2] if v == 0]
+    if zero_targets:
+        for z in zero_targets:
+            fe.add((block, z))
+        te.add((block, t[3]))
+        for v, tgt in t[2]:
+            if v != 0:
+                te.add((block, tgt))
+    else:
+        for v, tgt in t[2]:
+            te.add((block, tgt))
+        fe.add((block, t[3]))
+    return te, fe
+
+
+def upper_bounded_edges(fn, cmp, var_side):
+    """edges leaving the comparison's block on which the operand on `var_side` ('a'|'b') is known to be
+    <= (or <) the other operand"""
+    e = bool_switch_edges(fn, cmp["block"], cmp["res"])
+    if e is None:
+        return None
+    te, fe = e
+    op = cmp["op"]
+    if var_side == "b":
+        op = {"Lt": "Gt", "Le": "Ge", "Gt": "Lt", "Ge": "Le"}.get(op, op)
+    if op in ("Lt", "Le"):
+        return te
+    if op in ("Gt", "Ge"):
+        return fe
+    return None
